@@ -160,6 +160,16 @@ func check(o *runOpts) int {
 		fmt.Fprintf(os.Stderr, "no contracts for property %q\n", o.property)
 		return toolingFailure(o, "no contracts selected")
 	}
+	// packages whose contract files declare extern contracts are always loaded (their specs are evaluated there)
+	for _, k := range cs.FuncKeysSorted() {
+		if fc := cs.Funcs[k]; fc.Extern {
+			pkgSet[fc.DeclPkg] = true
+		}
+	}
+	// every package with a contract file is loaded: specs may refer to spec functions of any of them
+	for p := range cs.PkgDirs {
+		pkgSet[p] = true
+	}
 	var patterns []string
 	for p := range pkgSet {
 		patterns = append(patterns, p)
